@@ -394,3 +394,9 @@ pub(crate) fn co_set_para_kind_only<A: std::any::Any>(para: A) {
 
 /// Last resort against the same problem: never run the destructor of an `io::Error` (a `Custom` payload is leaked).
 pub(crate) fn io_error_drop_noop(_e: &mut std::io::Error) {}
+
+/// observation of `AtomicOption::vk_take_observed` (kani/may/ao.rs): the watched cell, the flag sampled at its take
+pub(crate) static mut AO_WATCH: *const u8 = std::ptr::null();
+pub(crate) static mut AO_WATCH_FLAG: *const std::sync::atomic::AtomicUsize = std::ptr::null();
+pub(crate) static mut AO_FLAG_AT_TAKE: usize = usize::MAX;
+pub(crate) static mut AO_TAKES: usize = 0;
